@@ -158,7 +158,7 @@ def _enumerate(ctx: core.Ctx, shard: int, nshards: int, tier: str) -> None:
 
 @st.composite
 def deep(draw):
-    r = draw(st.randoms(use_true_random=False))
+    r = core.rng(draw)
     while True:
         kinds = [r.choice(KINDS) for _ in range(r.choice([3, 4, 4]))]
         if valid_shape(kinds):
